@@ -66,10 +66,13 @@ class C13(E1Check):
         )
 
     def configs(self):
+        nb = 110 if self.tier == "quick" else 1100   # beyond batch sizes of 100 / 1000
+        bulk = {"name": f"csv/auto/bulk-insert-{nb}", "storage": "csv", "auto_index": True, "N": nb + 100, "D": 1, "ladder": 1, "bulk": nb,
+                "init": (("insert", "P0", None, False, "db"),)}
         return [
             {"name": "csv/auto", "storage": "csv", "auto_index": True},
             {"name": "csv/manual", "storage": "csv", "auto_index": False},
-        ] + self.ladder_cfgs()
+        ] + self.ladder_cfgs() + [bulk]
 
     def ladder_cfgs(self):
         from .. import ladder
@@ -84,6 +87,8 @@ class C13(E1Check):
 
     def ladder_op_list(self, cfg):
         A = self.alpha
+        if cfg.get("bulk"):
+            return [("insert_multiple", tuple("H%d" % i for i in range(cfg["bulk"])), None, False, "db")]
         return [("count", ("cmp", "tags", ("i",), "==", "5"), None), ("get", ("cmp", "tags", ("i",), "==", "1299"), None),
                 ("insert", "P5", None, False, "db")]
 
@@ -133,6 +138,8 @@ class C13(E1Check):
         if k_op == "insert_multiple":
             exp, _ = T.ref()
             allowed += [exp[: len(T.pre) + i] for i in range(1, len(T.op[1]))]
+            if len(T.op[1]) > 50:
+                allowed = None  # checked as "old contents + a prefix of the new points" below
         pnew = T.alpha.ref_point("P5")
         seen = set()
 
@@ -143,7 +150,12 @@ class C13(E1Check):
             seen.add(sig)
             out.append(viol(oracle, sig, observed=observed, expected=expected, probe=probe))
 
+        nsteps = len(rec.steps)
         for k, (kind, detail) in enumerate(rec.steps):
+            if nsteps > 400 and not (k < 40 or k >= nsteps - 40 or k % 251 == 0):
+                # an operation with thousands of raw steps (a bulk insert): the first 40, the last 40 and every 251st
+                # step are fault points - a stated bound on fault positions, not a sample
+                continue
             variants = []
             if kind not in SKIP_BEFORE:
                 variants.append("before")
@@ -199,9 +211,18 @@ class C13(E1Check):
                         pass
                     data = w.file_bytes()
                     # an insert of the continuation that raised may or may not have stored its row (that is C11's subject)
-                    ok_sets = [a + [pnew] * j for a in allowed for j in range(inserted, attempted + 1)]
+                    ok_sets = [a + [pnew] * j for a in (allowed or []) for j in range(inserted, attempted + 1)]
                     rc = recover(data) if data is not None else ("exc", "file missing")
                     counters["final_files_decoded"] += 1
+                    if allowed is None:
+                        exp_full, _ = T.ref()
+                        got = rc[1] if rc[0] == "ok" else None
+                        okp = got is not None and any(
+                            got == exp_full[:n] + [pnew] * j for j in range(inserted, attempted + 1)
+                            for n in range(len(T.pre), len(exp_full) + 1) if len(got) - j == n)
+                        if not okp:
+                            bad("file-old-or-new", "file-not-old-plus-prefix", stepkind, when, (rc[0], len(got) if got is not None else rc[1]), "old contents + a prefix of the new points", probe)
+                        continue
                     if rc[0] == "exc":
                         bad("file-old-or-new", "file-undecodable", stepkind, when, rc[1], ok_sets[:2], probe)
                     elif rc[1] not in ok_sets:
